@@ -1,7 +1,9 @@
 // Kani harnesses for /repo/src/storage.rs (compiled as `crate::storage::verif`).
 // A `Storage` is built literally around an ingredient-free `Zalsa` (going through `Storage::new`
 // costs > 10 min of CBMC time), then the *public* `Database` entry points are driven.
-// Properties: C02 (synthetic writes), C20 (write path: flag, epoch, revision), C04 (report_untracked_read).
+// Properties: C04 (report_untracked_read). The write-path harnesses (synthetic_write, trigger_cancellation through
+// `Storage::cancel_others`) did not come back within 20 min even with `Condvar::wait` and `Zalsa::event_cold` stubbed;
+// they are kept as probes (prop=NONE) and are not part of any claim.
 
 use crate::verif_prelude::*;
 use crate::zalsa::verif::{any_zalsa, VDb};
@@ -18,7 +20,7 @@ pub(crate) fn storage_around(zalsa: Zalsa) -> Storage<VDb> {
     }
 }
 
-// @verif prop=C02,C20 obl=O8 tier=quick bounds="single handle (no clones); arbitrary INV runtime state (< 2^40), arbitrary cancellation epoch (0..=255); symbolic durability LOW/MEDIUM/HIGH"
+// @verif prop=NONE obl=O8 tier=thorough bounds="single handle (no clones); arbitrary INV runtime state (< 2^40), arbitrary cancellation epoch (0..=255); symbolic durability LOW/MEDIUM/HIGH"
 // @+ encodes="Database::synthetic_write (default method), ZalsaDatabase::zalsa_mut (blanket impl for HasStorage), Storage::cancel_others, CancellationFlagGuard::new/drop, Runtime::bump_cancellation_count, Zalsa::new_revision, Runtime::new_revision, Runtime::report_tracked_write"
 /// C02/C20 through the public API: `db.synthetic_write(d)` starts exactly one new revision (two if the cancellation epoch
 /// was saturated), marks every durability <= d as changed now and nothing above, leaves the cancellation flag clear and
@@ -59,7 +61,7 @@ fn c02_o8_synthetic_write_public_api() {
     std::mem::forget(db);
 }
 
-// @verif prop=C02 obl=O8 tier=quick bounds="single handle; arbitrary INV runtime state" covers=0/1
+// @verif prop=NONE obl=O8 tier=thorough bounds="single handle; arbitrary INV runtime state" covers=0/1
 // @+ encodes="Database::synthetic_write, Storage::cancel_others, Runtime::report_tracked_write"
 /// C02-O6 through the public API: a never-change synthetic write panics in every state.
 #[kani::proof]
@@ -76,7 +78,7 @@ fn c02_o8_never_change_synthetic_write_panics() {
     std::mem::forget(db);
 }
 
-// @verif prop=C20 obl=O5 tier=quick bounds="single handle; arbitrary INV runtime state and cancellation epoch"
+// @verif prop=NONE obl=O5 tier=thorough bounds="single handle; arbitrary INV runtime state and cancellation epoch"
 // @+ encodes="Database::trigger_cancellation, Storage::cancel_others, CancellationFlagGuard, Runtime::bump_cancellation_count, Zalsa::new_revision"
 /// C20-O5: acquiring the database for writing (here via trigger_cancellation) advances the cancellation epoch by one --
 /// or, when the epoch counter is saturated, starts a new revision instead -- so provisional results stamped before the
